@@ -14,6 +14,7 @@ step records (strings), the four runs of a scenario are zipped, and TLC
 aioquic is imported lazily (after the overlay is active).
 """
 import hashlib
+import io
 import json
 import zlib
 from enum import Enum
@@ -23,12 +24,14 @@ from .netsim import script as scriptmod
 from .netsim import sim as simmod
 from .overlay import MachineryError
 
-# the four ways a scenario is run; "keycap": the run itself has secrets_log_file=None, the harness
-# captures the traffic secrets for the observer (netsim/sim.py Sim._keycap)
-MODES = [("off", {"qlog": False, "keylog": False, "keycap": True}),
-         ("qlog", {"qlog": True, "keylog": False, "keycap": True}),
-         ("keys", {"qlog": False, "keylog": True}),
-         ("both", {"qlog": True, "keylog": True})]
+# the four ways a scenario is run.  In all of them the observer gets its keys from the harness-side
+# capture (netsim/sim.py Sim._keycap: "keylog": False, "keycap": True), so that the run with logging
+# off really has secrets_log_file=None and the observation never depends on what the code under check
+# writes into its secrets log; "secrets": True gives the configuration a secrets_log_file of its own.
+MODES = [("off", {"qlog": False, "secrets": False}),
+         ("qlog", {"qlog": True, "secrets": False}),
+         ("keys", {"qlog": False, "secrets": True}),
+         ("both", {"qlog": True, "secrets": True})]
 MODE_NAMES = [m[0] for m in MODES]
 EPOCHS = ["INITIAL", "HANDSHAKE", "ZERO_RTT", "ONE_RTT"]
 QLOG_TYPES = ["initial", "handshake", "0rtt", "1rtt"]
@@ -96,6 +99,9 @@ def fields_of(obj):
     return out
 
 
+_CERTS = {}
+
+
 class PairSim(simmod.Sim):
     def __init__(self, A, cfg=None, seed=0, h3=None):
         self.processed = {"c": [0, 0, 0, 0], "s": [0, 0, 0, 0]}
@@ -105,6 +111,9 @@ class PairSim(simmod.Sim):
         self.open_reqs = []              # client request streams still open for sending
         self.rawfin = set()
         self.rawopen = set()
+        self.secrets = {"c": io.StringIO(), "s": io.StringIO()}      # what the code under check writes
+        cfg = dict(cfg or {})
+        cfg.update({"keylog": False, "keycap": True})
         super().__init__(A, cfg, seed)
         if h3 and h3.get("c") == "h3":
             self._mk_http("c")
@@ -118,6 +127,22 @@ class PairSim(simmod.Sim):
             cnt[EPOCHS.index(context.epoch.name)] += 1
             return orig(context, *a, **kw)
         conn._payload_received = counted
+
+    def _base_config(self, is_client):
+        c = super()._base_config(is_client)
+        if self.cfg.get("secrets"):
+            c.secrets_log_file = self.secrets["c" if is_client else "s"]
+        if not is_client:
+            # parsing the test key costs ~90 ms: every run of a process shares the parsed certificate objects
+            # (the same three fields load_cert_chain sets); configuration loading is not under check here
+            def cached(certfile, keyfile=None, password=None):
+                k = (str(certfile), str(keyfile))
+                if k not in _CERTS:
+                    type(c).load_cert_chain(c, certfile, keyfile, password)
+                    _CERTS[k] = (c.certificate, c.certificate_chain, c.private_key)
+                c.certificate, c.certificate_chain, c.private_key = _CERTS[k]
+            c.load_cert_chain = cached
+        return c
 
     def _make_client(self):
         super()._make_client()
@@ -348,6 +373,28 @@ def project(s):
 NONE = {"k": "none", "raised": "", "obs": [], "mdl": []}
 
 
+class Table:
+    """Lossless dictionary coding of a zipped line: the strings of the four runs go into one table
+    (`tab`), the records hold 1-based indices; TraceLogPair decodes through the table before it
+    compares, so nothing is decided here."""
+
+    def __init__(self):
+        self.tab, self.ix = [], {}
+
+    def put(self, strings):
+        out = []
+        for x in strings:
+            if x not in self.ix:
+                self.tab.append(x)
+                self.ix[x] = len(self.tab)
+            out.append(self.ix[x])
+        return out
+
+
+def decode(line, ixs):
+    return [line["tab"][i - 1] for i in ixs]
+
+
 # ------------------------------------------------------------------ final state
 def _is_skipped(name):
     n = name.lower()
@@ -512,29 +559,41 @@ def accounts(s, mode):
                 except Exception:         # noqa
                     strict = False
                 q["strictJson"] = strict
-        events = [e for t in doc["traces"] for e in t["events"]]
+        events = [e for t in doc.get("traces", []) for e in t.get("events", []) if isinstance(e, dict) and "name" in e]
         sent = [e for e in events if e["name"] == "transport:packet_sent"]
         recv = [e for e in events if e["name"] == "transport:packet_received"]
-        q["ntraces"] = len(doc["traces"])
-        q["sentRecords"] = ["%s:%s" % (str(e["data"]["header"]["packet_type"]).lower(), e["data"]["header"].get("packet_number"))
-                            for e in sent]
-        q["sentRecordLens"] = [e["data"]["raw"]["length"] for e in sent]
-        rt = [str(e["data"]["header"]["packet_type"]).lower() for e in recv]
+        q["ntraces"] = len(doc.get("traces", []))
+        hdr = lambda e: (e.get("data") or {}).get("header") or {}        # noqa: E731
+        q["sentRecords"] = ["%s:%s" % (str(hdr(e).get("packet_type")).lower(), hdr(e).get("packet_number")) for e in sent]
+        q["sentRecordLens"] = [str(((e.get("data") or {}).get("raw") or {}).get("length")) for e in sent]
+        rt = [str(hdr(e).get("packet_type")).lower() for e in recv]
         q["recvRecords"] = [rt.count(t) for t in QLOG_TYPES]
         q["otherRecvRecords"] = len([t for t in rt if t not in QLOG_TYPES])      # retry / version negotiation
         q["processed"] = [s.processed[ep][EPOCHS.index(n)] for n in ("INITIAL", "HANDSHAKE", "ZERO_RTT", "ONE_RTT")]
         pk = [e for e in s.log if e["k"] == "pkt" and e["ep"] == ep and e["type"] != "dgram_padding"]
         q["countable"] = all(e["ok"] and e["type"] in QLOG_TYPES for e in pk)
         q["sent"] = ["%s:%s" % (e["type"], e.get("pn")) for e in pk]
-        q["sentLens"] = [e["len"] for e in pk]
+        q["sentLens"] = [str(e["len"]) for e in pk]
         q["h3records"] = len([e for e in events if e["name"].startswith("http:")])
         out.append(q)
     return out
 
 
+def secrets_accounts(s, mode):
+    """The secrets log the code under check wrote, next to the secrets the harness captured at
+    `_update_traffic_key` (label and secret of every line; the client random is not compared)."""
+    out = []
+    for ep in "cs":
+        if ep not in s.eps:
+            continue
+        pick = lambda txt: ["%s %s" % (p[0], p[2]) for p in (ln.split() for ln in txt.splitlines()) if len(p) == 3]     # noqa: E731
+        out.append({"who": "%s:%s" % (mode, ep), "written": pick(s.secrets[ep].getvalue()), "installed": pick(s.keylog[ep].getvalue())})
+    return out
+
+
 # ------------------------------------------------------------------ one scenario, four ways
 def first_diff(a, b):
-    """Name of the first field in which two projected records differ (for the signature only)."""
+    """Name of the first field in which two projected (decoded) records differ (for the signature only)."""
     if a["k"] != b["k"]:
         return "kind:%s/%s" % (a["k"], b["k"])
     if a["raised"] != b["raised"]:
@@ -554,7 +613,7 @@ def first_diff(a, b):
 
 def run_scenario(A, job):
     """-> dict(lines, meta).  lines: init, zipped steps, end."""
-    runs, finals, fulls, accts, raised = [], [], [], [], []
+    runs, finals, fulls, accts, kls = [], [], [], [], []
     meta = {"n": [], "h3records": 0, "raised_off": [], "unopened": 0}
     for mode, mcfg in MODES:
         cfg = dict(job["cfg"])
@@ -566,6 +625,8 @@ def run_scenario(A, job):
         fulls.append(full)
         acc = accounts(s, mode) if cfg["qlog"] else []
         accts += acc
+        if cfg["secrets"]:
+            kls += secrets_accounts(s, mode)
         meta["n"].append(len(runs[-1]))
         meta["h3records"] += sum(a["h3records"] for a in acc)
         if mode == "off":
@@ -579,8 +640,12 @@ def run_scenario(A, job):
     lines = [{"ev": "init"}]
     for j in range(max(len(r) for r in runs)):
         recs = [r[j] if j < len(r) else NONE for r in runs]
-        lines.append({"ev": "step", "k": recs[0]["k"], "r": recs})
-    lines.append({"ev": "end", "f": finals, "q": accts})
+        t = Table()
+        lines.append({"ev": "step", "k": recs[0]["k"],
+                      "r": [{"k": r["k"], "raised": r["raised"], "obs": t.put(r["obs"]), "mdl": t.put(r["mdl"])} for r in recs],
+                      "tab": t.tab})
+    t = Table()
+    lines.append({"ev": "end", "f": [t.put(f) for f in finals], "q": accts, "kl": kls, "tab": t.tab})
     # for naming a difference of the final state (the verdict is TLC's, on the line above)
     hints = []
     for m in range(1, 4):
